@@ -49,3 +49,7 @@ Proof. reflexivity. Qed.
 
 Lemma c18_segmentation_independent_sax : forall s stream cuts, sx_run s (segments stream cuts) = sx_run s [stream].
 Proof. intros. apply c18_segmentation_independent; [exact sx_mono | exact sx_new_unrooted]. Qed.
+
+Lemma c18_delimiter_never_parsed_sax : forall w reads, reads <> [] ->
+  cov (rev (fed (sx_run (sx_init w) reads))) (frames (concat reads)).
+Proof. intros. apply c18_delimiter_never_parsed; [exact sx_mono | exact sx_new_unrooted | assumption]. Qed.
